@@ -50,7 +50,7 @@ func LoadLocation(n string) (*Location, error) { return time.LoadLocation(n) }
 
 func Now() Time {
 	if vrt.Active() {
-		return vrt.VNow()
+		return vrt.VNowLocal()
 	}
 	return time.Now()
 }
